@@ -44,6 +44,10 @@ ASSUMPTIONS = [
     "(lock identity = object; re-entrant re-acquisitions dropped); the law quantifies over pairs (thorough: also 120 "
     "seeded triples) of entry points with every fact that is read under the terminal lock already warm; the same "
     "fact cold on both sides is outside the law and recorded under extra.lock_order as an observation",
+    "configuration: the root's _queries_enabled may be TRUE or FALSE at its first Process.start() and be toggled once "
+    "at any moment (model y, every second real run); the lock protocol must not depend on it (lock_tty guards "
+    "terminal access - write_tty, read_tty, the urwid screen - not only queries); real runs started with queries "
+    "disabled make no query probes (query_terminal returns None then)",
     "initialisation (TtyInit): the active terminal is the tty behind stdout, stdin, stderr (in that order), else "
     "/dev/tty; whenever one is found Process.start and Process.run must be the library's wrappers; probed by real "
     "imports in fresh sessions over all 16 combinations (one pty each)",
@@ -59,6 +63,7 @@ QUICK_MODELS = [
     ("MC_TtyLock_q_dump.cfg", "tty"),
     ("MC_TtyLock_s_dump.cfg", "tty"),
     ("MC_TtyLock_g_dump.cfg", "tty"),
+    ("MC_TtyLock_y_dump.cfg", "tty"),
     ("MC_TtyLock_cell.cfg", "cell"),
 ]
 VARIANTS = {
@@ -69,12 +74,12 @@ VARIANTS = {
 }
 ALL_ACTIONS = {
     "DoReadA", "DoAcqA", "DoReadB", "DoAcqB", "DoNest", "DoWrite", "DoRead", "DoRelB", "DoRelA",
-    "DoSReadA", "DoSAcqA", "DoSTest", "DoSNew", "DoSCopy", "DoSRel", "DoSSpawn", "DoRunWrap", "DoReply",
+    "DoSReadA", "DoSAcqA", "DoSTest", "DoSNew", "DoSCopy", "DoSRel", "DoSSpawn", "DoRunWrap", "DoReply", "DoToggleQ",
 }
 
 
 def _pool():
-    return ProcessPoolExecutor(max_workers=4, mp_context=multiprocessing.get_context("spawn"))
+    return ProcessPoolExecutor(max_workers=5, mp_context=multiprocessing.get_context("spawn"))
 
 
 def real_jobs(rep: Report) -> list[dict]:
@@ -90,6 +95,8 @@ def real_jobs(rep: Report) -> list[dict]:
                 grandchild=True, min_calls=100 if big else 30, max_calls=20000,
                 p_query=0.15, p_nested=0.25, stall_s=25,
             ))
+            if r % 2 == 1:  # every second run: disable_queries() in effect at the first Process.start()
+                jobs[-1].update(queries_off_at_start=True, p_query=0.0)
     return jobs
 
 
@@ -399,13 +406,16 @@ def _main(rep: Report, replay: dict | None) -> None:
         # the seeded regressions of the MODEL must violate an invariant (the spec discriminates)
         vres = tlc.run_many(
             [dict(spec="MC_TtyLock", cfg="MC_TtyLock_var.cfg", workers=1, timeout=300, env={"VARIANT": v})
-             for v in VARIANTS], parallel=4)
-        for v, res in zip(VARIANTS, vres):
+             for v in VARIANTS]
+            + [dict(spec="MC_TtyLock", cfg="MC_TtyLock_var_y.cfg", workers=1, timeout=300, env={"VARIANT": "noswapq"})],
+            parallel=5)
+        for v, res in zip(list(VARIANTS) + ["noswapq"], vres):
             rep.add_tlc(res)
             if not res.violated:
-                raise tlc.MachineryError(f"model variant {v!r} ({VARIANTS[v]}) satisfies every invariant: "
+                raise tlc.MachineryError(f"model variant {v!r} ({VARIANTS.get(v, 'no lock swap while queries are disabled')}) satisfies every invariant: "
                                          f"TtyLock.tla no longer discriminates")
             rep.extra.setdefault("model_variants", {})[v] = f"{res.violated} after {res.distinct} states"
+
         outs = [f.result() for f in futs]
     for out in outs:
         report_replay(rep, out, cover)
